@@ -362,10 +362,10 @@ def c09_jobs(tier):
 
 CHECKS['C09'] = {
     'title': 'matrix product, transpose and structure kernels match their definitions', 'level': 'exploration', 'engine': 'grid', 'jobs': c09_jobs,
-    'rule': ('complete enumeration of shapes against integer references computed from the definitions: the four product variants (mulmm, mulTm, mulmT, mulTT, with the argument order documented in linalg.h) on EVERY (row, inner, col) in 1..5^3 (1..7^3 thorough) '
+    'rule': ('complete enumeration of shapes against integer references computed from the definitions: the four product variants (mulmm, mulTm, mulmT, mulTT, with the argument order documented in linalg.h) on EVERY (row, inner, col) in 1..9^3 (1..12^3 thorough; blocked implementations meet each of their remainders) '
              'with index-coded operands (X[i][j] = 1+16i+j, Y = distinct primes; all products exact in float and double, a wrong index anywhere changes the result) plus ALL pairs of single-entry 0/1 operands for dimensions <= 3 (bilinearity pins every coefficient); '
-             'T1, T2, eye1/2, tri1/2, diag, diag1/2, triL, triL1, triL2, triU, triU1, triU2 on EVERY (m, n) in 1..6^2 (1..8^2 thorough): wide, square and tall; T2 twice and T1 twice restore the input. Every output lives between 24 guard cells on each side and is pre-filled with stale non-zero data; inputs must be unchanged. '
-             'Both real widths, plain and under ASan. distinct_nontrivial counts non-square shapes.'),
+             'T1, T2, eye1/2, tri1/2, diag, diag1/2, triL, triL1, triL2, triU, triU1, triU2 on EVERY (m, n) in 1..12^2 (1..20^2 thorough): wide, square and tall, with three operand patterns (index-coded; signed zeros; negative and infinite off-diagonal entries) compared BIT FOR BIT; T2 twice and T1 twice restore the input. Every output lives between 24 pairwise distinct guard cells on each side and is pre-filled with stale non-zero data; inputs must be unchanged. '
+             'Both real widths plain and under ASan, plus long double reals with operands that need more than 53 bits. distinct_nontrivial counts non-square shapes.'),
     'assumptions': ['matrix contents beyond the index-coded and single-entry families are covered by bilinearity of the product and by the kernels being data-independent (they contain no branch on element values)'],
     'design_ref': '§4.C09', 'technique': 'complete enumeration of all small shapes (square and rectangular) with index-coded and single-entry operands against integer references, guard cells + ASan',
     'level_text': 'Every kernel is executed on every shape up to 5x5x5 / 6x6 (7x7x7 / 8x8 thorough) including inner dimension one and both rectangular orientations; since the kernels do not branch on data, index-coded and unit operands determine every coefficient; writes outside the result array are caught by guard cells and ASan.',
